@@ -353,6 +353,8 @@ where
                 };
 
                 if deleted {
+                    #[cfg(metrics_verif)]
+                    metrics::__verif::probe("recency.expired");
                     entries.remove(key);
                     return false;
                 }
